@@ -14,7 +14,8 @@ import (
 //
 //	whereSummarizeTests   which column set a where-conjunct is tested against (set.HasSubset(cols1,
 //	                      e.Columns())) before it is moved below the summarize: the source's
-//	                      columns or the by columns
+//	                      columns, the by columns, or the source's columns that are not summary
+//	                      output columns
 //	projectNoSummariesGuarded   whether "no summaries left → project of the source" is guarded by
 //	                      set.HasSubset(q.by, p.columns)
 //	projectDropChecksWhole      whether "remove unused summaries" refuses a whole-row result
@@ -76,6 +77,8 @@ func init() {
 			ws = "sourceCols"
 		case "q.by":
 			ws = "byCols"
+		case "set.Difference(q.source.Columns(), q.cols)":
+			ws = "sourceMinusSummaryCols"
 		default:
 			return fmt.Errorf("Where.Transform/*Summarize: unexpected cols1 := %s", cols1)
 		}
@@ -135,7 +138,7 @@ func init() {
 
 		out.WriteString("namespace Gsu.Gen.QryCond\n\n")
 		out.WriteString("/-- the column set a where-conjunct must be within to be moved below a summarize -/\n")
-		out.WriteString("inductive ColSet where\n  | sourceCols\n  | byCols\n  deriving DecidableEq, Repr\n\n")
+		out.WriteString("inductive ColSet where\n  | sourceCols\n  | byCols\n  | sourceMinusSummaryCols\n  deriving DecidableEq, Repr\n\n")
 		fmt.Fprintf(out, "/-- `cols1 := %s` in Where.Transform, case *Summarize -/\n", cols1)
 		fmt.Fprintf(out, "def whereSummarizeTests : ColSet := .%s\n\n", ws)
 		out.WriteString("/-- Project.Transform: `no summaries left` is guarded by set.HasSubset(q.by, p.columns) -/\n")
